@@ -450,7 +450,7 @@ class eval_abs(object):
         r %=op_size+1
         r = uint64(r)
         op_size = uint64(op_size)
-        tmpa = uint64((args[0]<<1) | args[2])
+        tmpa = (uint64(args[0])<<1) | uint64(args[2])
         rez = (tmpa<<r) | (tmpa >> (op_size+uint64(1)-r))
         return rez
 
@@ -464,7 +464,7 @@ class eval_abs(object):
         r %=op_size+1
         r = uint64(r)
         op_size = uint64(op_size)
-        tmpa = uint64((args[0]<<1) | args[2])
+        tmpa = (uint64(args[0])<<1) | uint64(args[2])
         rez = (tmpa>>r)  | (tmpa << (op_size+uint64(1)-r))
         return rez
 
@@ -535,6 +535,8 @@ class eval_abs(object):
                '>>>':eval_op_rotr,
                '<<<c_rez':eval_op_rotl_wflag_rez,
                '<<<c_cf':eval_op_rotl_wflag_cf,
+               '>>>c_rez':eval_op_rotr_wflag_rez,
+               '>>>c_cf':eval_op_rotr_wflag_cf,
                '<<':eval_op_lshift,
                '>>':eval_op_rshift,
                'a>>':eval_op_arshift,
